@@ -521,3 +521,49 @@ def _edited(layout, comps, key, edit, j):
     if edit == "trailFF":
         out += b"\xff"
     return out
+
+
+# ---------------------------------------------------------------------------------------
+# the public reader hands ITS flags and key to the binary reader: read_file(f, check, k) checks the signature and returns
+# from_binary(reader positioned after it, comments, check, k) - for every key and both settings of the MAC check
+
+@proof("C05/read_file.passes-flags-and-key", functions=[(MOD, "Bf3File.read_file")],
+       family=lambda seed, tier: [dict(key=bytes(range(1, 17)), check=c, sig=s) for c in (True, False) for s in (True, False)])
+def read_file_key(vc):
+    M = vc.module(MOD)
+    key = vc.bytes("key", 16)
+    check = vc.bool("check")
+    sig = vc.bool("sig")
+    if vc.symbolic:
+        body = vc.fresh_bytes("body", vc.fresh_int("bl", 0, 1 << 24))
+        binary = vc.cat(b"BF3\0\0" if sig else b"BF4\0\0", body)
+        comments = {"Creator": "x"}
+        calls = []
+        vc.patch(M.Bf3File, "parse_bf3_file", classmethod(lambda cls, f: (M.BytesReader(binary, "x"), comments)))
+        vc.patch(M.Bf3File, "from_binary",
+                 classmethod(lambda cls, rdr, com=None, chk=True, k=M.DEFAULT_SESSION_KEY: (calls.append((rdr.tell(), com, chk, k)), "FILE")[1]))
+        out = vc.call(M.Bf3File.read_file, "ignored", check, key)
+        if not sig:
+            vc.prove("wrong-signature=>format-error", out.raised(M.Bf3FileFormatError) and not calls, repr(out.exc))
+            return
+        vc.prove("returns-what-the-binary-reader-returns", out.returned and out.value == "FILE", repr(out.exc))
+        vc.prove("binary-reader-called-once-after-the-signature-with-THESE-comments,flag,key",
+                 len(calls) == 1 and calls[0][0] == 5 and calls[0][1] is comments and calls[0][2] is check and calls[0][3] == key)
+        out2 = vc.call(M.Bf3File.read_file, "ignored")
+        vc.prove("defaults:MAC-check-on,all-zero-key", len(calls) == 2 and calls[1][2] is True and calls[1][3] == bytes(16))
+        vc.cover("read")
+        return
+    import io
+    vc.assume(sig)
+    f = M.Bf3File({"a": "b"}, [M.Bf3Component({0xC3: b"\x02"}, b"firmware-bytes!")])
+    s = io.StringIO()
+    f.write_file(s, key)
+    good = vc.call(M.Bf3File.read_file, io.StringIO(s.getvalue()), check, key)
+    vc.prove("returns-what-the-binary-reader-returns", good.returned and good.value.components[0].blob == b"firmware-bytes!",
+             repr(good.exc))
+    other = vc.call(M.Bf3File.read_file, io.StringIO(s.getvalue()), check, bytes(16))
+    vc.prove("binary-reader-called-once-after-the-signature-with-THESE-comments,flag,key",
+             (not other.returned) if check else other.returned, repr(other.exc))
+
+
+C01._share()        # see the end of contracts/C01.py
